@@ -7,6 +7,7 @@ import (
 	"io"
 
 	"github.com/ohler55/slip"
+	"github.com/ohler55/slip/pkg/cl"
 )
 
 func init() {
@@ -52,7 +53,7 @@ type WithZipWriter struct {
 }
 
 // Call the function with the arguments provided.
-func (f *WithZipWriter) Call(s *slip.Scope, args slip.List, depth int) slip.Object {
+func (f *WithZipWriter) Call(s *slip.Scope, args slip.List, depth int) (result slip.Object) {
 	slip.CheckArgCount(s, depth, f, args, 1, -1)
 	forms := args[1:]
 	if list, ok := args[0].(slip.List); ok {
@@ -99,10 +100,16 @@ func (f *WithZipWriter) Call(s *slip.Scope, args slip.List, depth int) slip.Obje
 	s2 := s.NewScope()
 	s2.Let(sym, &slip.OutputStream{Writer: z})
 	for i := range forms {
-		_ = slip.EvalArg(s2, forms, i, d2)
+		switch tr := slip.EvalArg(s2, forms, i, d2).(type) {
+		case *slip.ReturnResult, *cl.GoTo:
+			result = tr // pass a return-from, return or go on to its target
+		}
+		if result != nil {
+			break
+		}
 	}
 	_ = z.Flush()
 	_ = z.Close()
 
-	return nil
+	return
 }
